@@ -428,3 +428,55 @@ def r7_source_iterators_do_not_write_their_image(ck, P, rid='C16-R7'):
             ck.violation(R, f.name, 'source iterator writes its image', '%s %s at %s: the image a source iterator reads may be shared read-only between threads, so every drawing call from it races on that write (a reference count that drifts frees the image early or never)' % (what, bad[1], bad[0].loc()), bad[0].loc())
         else:
             ck.ok(R, what)
+
+
+def r8_first_use_validates(ck, P, rid='C16-R8'):
+    """Must-pass-through: an image becomes read-only for the library once it has been validated (the derived flags are written into the
+    shared structure by the first request that sees it dirty).  'Shared read-only after its first use' therefore needs every use to
+    perform that validation - also a request that turns out to draw nothing.  A request that returns before validating leaves the image
+    dirty, and the *next* requests, possibly concurrent, write to it."""
+    R = ck.rule(rid, 'in every exported function that validates an image parameter (a call of the validate function on it), every return is reached only through that call, except on paths that log a caller error: a request that is refused or found empty before the validation leaves a shared source dirty, and the two threads that use it next both store its flags, format code and accessors - a write to an image that is supposed to be read-only after its first use', floor=5)
+    V = common.find_validate(P)
+    n = 0
+    for f in common.public_api(P):
+        for c in f.calls():
+            if P.resolve(f, c.callee) is not V if isinstance(c.callee, str) else True:
+                continue
+            o = f.strip_casts(c.a[0])
+            if o[0] != 'a':
+                continue
+            k = o[1]
+            if (f.params[k][0] or '') in ('dst', 'dest', 'destination'):
+                continue            # destinations are thread-private by the property's premise
+            # only the first validation of that parameter matters
+            if any(c2 is not c and c2.i < c.i and isinstance(c2.callee, str) and P.resolve(f, c2.callee) is V and list(f.strip_casts(c2.a[0])) == ['a', k] for c2 in f.calls()):
+                continue
+            n += 1; ck.saw(f)
+            # blocks reachable from the entry without passing the call's block (and without passing an error-logging block or a NULL test of the image itself)
+            avoid = {c.bb.id} | {b.id for b in f.blocks if common.is_log_error_block(f, b.id)}
+            # the image may be optional: the edge "image == NULL" skips the validation legitimately
+            cut = set()
+            for b in f.blocks:
+                t = b.term
+                if t.op == 'br' and t.a:
+                    cc, p, ops = f.cond(t.a[0])
+                    if cc is not None and cc.op == 'icmp' and p in ('eq', 'ne') and any(q[0] == 'n' for q in ops) and any(list(f.strip_casts(q)) == ['a', k] for q in ops):
+                        cut.add((b.id, t.d['succ'][0] if p == 'eq' else t.d['succ'][1]))
+            seen = set(); work = [0]; bad = None
+            while work and bad is None:
+                b = work.pop()
+                if b in seen or b in avoid:
+                    continue
+                seen.add(b)
+                if f.blocks[b].term.op == 'ret':
+                    bad = f.blocks[b]; break
+                for s in f.blocks[b].succ:
+                    if (b, s) not in cut:
+                        work.append(s)
+            where = '%s: validation of %s at %s' % (f.name, f.params[k][0], c.loc())
+            if bad is None:
+                ck.ok(R, where, 'on every path to a return')
+            else:
+                ck.violation(R, f.name, 'return before the validation of %s' % f.params[k][0], '%s can return (%s) without having validated its image parameter %s, although it validates it on other paths: when this refused or empty request is the first use of a shared image, the image stays dirty and the requests that follow - from several threads - each write its derived state' % (f.name, bad.term.loc(), f.params[k][0]), bad.term.loc())
+    if n == 0:
+        raise AnalysisBroken('%s: no exported function validates an image parameter' % rid)
